@@ -29,7 +29,7 @@ InitWith(c) ==
     /\ taken' = Hdr /\ ops' = <<>> /\ pc' = "idle" /\ it' = [cause |-> "none", asap |-> FALSE]
     /\ dirty' = FALSE /\ fw' = <<Hdr>> /\ fsy' = <<Hdr>>
     /\ commits' = <<>>
-    /\ runs' = 1
+    /\ runs' = 1 /\ torn' = 0 /\ tears' = 0
 
 NoPend == [n |-> 0, asap |-> FALSE]
 TrInit == Init /\ l = 1 /\ obs = NoObs /\ pend = NoPend
@@ -61,7 +61,7 @@ TrAppendRet == /\ IsEvent("AppendRet")
                      /\ IF needCrc = CodedCrc(pend.n) /\ needRot = CodedRot(pend.n, needCrc) THEN TRUE
                         ELSE PrintT(<<"CADENCE_DEVIATION", l>>)
                /\ pend' = NoPend
-               /\ UNCHANGED <<phase, accept, stopReq, taken, ops, pc, it, dirty, fw, fsy, commits, runs, hist>>
+               /\ UNCHANGED <<phase, accept, stopReq, taken, ops, pc, it, dirty, fw, fsy, commits, runs, torn, tears, hist>>
 
 (* Engine.Commit(pos, meta, safe): src = "w" from the writer loop, "r" from the reader during
    replay.  dirty = smallest stream position found not fsynced at the moment of the callback
@@ -70,22 +70,43 @@ TrCommit == /\ IsEvent("Commit")
             /\ commits' = Append(commits, Trace[l].pos)
             /\ pend' = pend /\ obs' = [t |-> "commit", pos |-> Trace[l].pos, src |-> Trace[l].src, dirty |-> Trace[l].dirty,
                        metaok |-> Trace[l].metaok, safe |-> Trace[l].safe, size |-> Trace[l].size]
-            /\ UNCHANGED <<wvars, phase, accept, stopReq, asapPend, taken, ops, pc, it, dirty, fw, fsy, runs, hist>>
+            /\ UNCHANGED <<wvars, phase, accept, stopReq, asapPend, taken, ops, pc, it, dirty, fw, fsy, runs, torn, tears, hist>>
 
 TrStop == /\ IsEvent("Stop")
           /\ phase = "run"
           /\ phase' = "stopped" /\ accept' = FALSE
           /\ pend' = pend /\ obs' = [t |-> "stop", err |-> Trace[l].err]
-          /\ UNCHANGED <<wvars, stopReq, asapPend, taken, ops, pc, it, dirty, fw, fsy, commits, runs, hist>>
+          /\ UNCHANGED <<wvars, stopReq, asapPend, taken, ops, pc, it, dirty, fw, fsy, commits, runs, torn, tears, hist>>
 
 TrLayout == /\ IsEvent("Layout")
             /\ pend' = pend /\ obs' = [t |-> "layout", got |-> Trace[l].recs]
             /\ UNCHANGED vars
 
+(* Run(from, meta) on the stopped binlog.  It either comes up as master (Started; cut = the file ends
+   exactly at the replayed offset, i.e. a torn tail was cut off) or fails (Refused). *)
 TrRestart == /\ IsEvent("Restart")
              /\ RestartCore(Trace[l].from)
              /\ commits' = <<>>
              /\ pend' = pend /\ obs' = NoObs /\ hist' = hist
+             /\ UNCHANGED <<recs, torn>>
+
+TrStarted == /\ IsEvent("Started")
+             /\ StartedCore(Trace[l].cut)
+             /\ pend' = pend /\ obs' = NoObs
+             /\ UNCHANGED <<chunk, offG, crcAt, fileStart, nextId, appended, bounds, phase, accept, stopReq, asapPend,
+                            taken, ops, pc, it, dirty, fw, fsy, commits, runs, tears, hist>>
+
+TrRefused == /\ IsEvent("Refused")
+             /\ phase = "run"
+             /\ phase' = "stopped" /\ accept' = FALSE
+             /\ commits' = << offG >>
+             /\ pend' = pend /\ obs' = [t |-> "refused", torn |-> torn, msg |-> Trace[l].msg]
+             /\ UNCHANGED <<wvars, stopReq, asapPend, taken, ops, pc, it, dirty, fw, fsy, runs, torn, tears, hist>>
+
+(* the harness cut the last file at stream position `at` *)
+TrTear == /\ IsEvent("Tear")
+          /\ TearCore(Trace[l].at)
+          /\ pend' = pend /\ obs' = NoObs /\ hist' = hist
 
 (* one ReadAll(from, meta) on a copy of the current files damaged by [dt, at] (dt = "none": intact;
    also the replay at the start of a Run): the recording engine saw `cnt` records of the layout
@@ -98,7 +119,7 @@ TrRead == /\ IsEvent("Read")
                      want |-> ReadModel(Trace[l].from, Trace[l].meta, [t |-> Trace[l].dt, at |-> Trace[l].at])]
           /\ UNCHANGED vars
 
-TrNext == TrOpen \/ TrAppendCall \/ TrAppendRet \/ TrCommit \/ TrStop \/ TrLayout \/ TrRestart \/ TrRead
+TrNext == TrOpen \/ TrAppendCall \/ TrAppendRet \/ TrCommit \/ TrStop \/ TrLayout \/ TrRestart \/ TrStarted \/ TrRefused \/ TrTear \/ TrRead
 TraceSpec == TrInit /\ [][TrNext]_tvars
 
 -------------------------------------------------------------------------------
@@ -112,6 +133,7 @@ Agree(got, want, d) ==
                               /\ got.dmgd = Dmgd(want, d)
       [] want.err = "seek" -> got.err # "none"
       [] want.err = "weak" -> got.ck \cap Forbidden(d) = {}
+      [] want.err = "torn" -> FALSE     \* events were appended after a torn tail: no replay can be right any more
 
 AppendOffsets    == obs.t = "ret" => obs.ok
 LayoutAsSpecified == obs.t = "layout" => obs.got = recs
@@ -132,6 +154,8 @@ CommitValidObs   == obs.t = "commit" => /\ (obs.src = "w" => obs.pos \in bounds 
 CommitDurableObs == obs.t = "commit" => /\ (obs.dirty = -1 \/ obs.dirty >= obs.pos)
                                         /\ obs.pos <= obs.size
 CommitsAtBounds  == pend = NoPend => \A j \in DOMAIN commits : IsBoundary(commits[j])
+(* Run may only refuse to start when the tail of the binlog is torn *)
+RefusalJustified == obs.t = "refused" => obs.torn > 0
 StopCleanObs     == obs.t = "stop" => obs.err = "" /\ commits # <<>> /\ commits[Len(commits)] = offG
 
 HighWater == TLCSet(7, IF l > TLCGet(7) THEN l ELSE TLCGet(7))
